@@ -172,6 +172,12 @@ void Stats::processMsg(int sockfd) {
       OLOG << "Stats server error: closing file descriptor: "
            << ::strerror_r(errno, err_buf.data(), err_buf.size());
     }
+    // Every way out of this function has to give the handler slot back,
+    // otherwise ~Stats waits for it in vain and aborts. Notify while holding
+    // the lock: once it is released the Stats object may be gone.
+    std::unique_lock<std::mutex> lock(thread_mutex_);
+    thread_count_--;
+    thread_exited_.notify_one();
   };
   char mode = 'a';
   char byte_buf;
@@ -222,10 +228,6 @@ void Stats::processMsg(int sockfd) {
     OLOG << "Stats server error: writing to socket: "
          << ::strerror_r(errno, err_buf.data(), err_buf.size());
   }
-  std::unique_lock<std::mutex> lock(thread_mutex_);
-  thread_count_--;
-  lock.unlock();
-  thread_exited_.notify_one();
 }
 
 std::unordered_map<std::string, int> Stats::getAll() {
